@@ -587,7 +587,11 @@ def run(c):
     traces, meta = plugin_faults(c, wd)
     validate(c, traces, meta, 'plugin-callback')
     lock_probe_leg(c, wd)
-    traces, meta = c03.run_scenarios(c, rng, wd, 40 if quick else 6000, 0.5, 'differential', 'd')
+    # (always: a snapshot taken inside a method that uses zero-argument super() - its frame holds the __class__ cell -
+    # and the method called again afterwards)
+    cell = [([dict(id=1, kind='line', file='a', line='ktag', span='none'), dict(id=2, kind='line', file='a', line='kf_last', span='none')],
+             [[('a.kf', [('line',), ('call', 'a.kf', [])])], [('a.kf', [])]])]
+    traces, meta = c03.run_scenarios(c, rng, wd, 40 if quick else 6000, 0.5, 'differential', 'd', curated=cell)
     c03.validate(c, traces, meta, lambda m: m['firings'] >= 3)
     # the interpreter-wide state the application can observe is left alone by hits
     amb = dict(constants=dict(Facets={'prng', 'warnings', 'recursion'}, Features={'snapshot', 'log', 'condition'},
